@@ -29,15 +29,40 @@ Structure:
     runs of printable characters over ANY number of full reads (`C15_rune_run`,
     `C15_rune_straddle`), and, across one boundary after printable padding: SGR
     mouse reports, X10 mouse reports, key sequences of the table, whole bracketed
-    pastes, and any event whose cut beginning is held back (`C15_event_straddle`);
+    pastes, alt + a (multi-byte) character (`C15_altrune_straddle`), and any event
+    whose cut beginning is held back (`C15_event_straddle`);
  6. STREAMS of events over ANY number of full reads: the general theorem
     `C15_stream` (any table; hypotheses `StreamOK` and `CutStable`, statements about
     detectOneMsg on explicit byte strings), its invariant `C15_stream_cut`, and the
     proof that the event classes of the property — the grammar `Ev` of
     `Tea/Input/StreamSpec.lean` under the decidable side conditions `WellFormed` —
     satisfy them (`C15_events_cutStable`), hence `C15_stream_events` (any `TableOK`
-    table) and `C15_stream_doc` (the documented table), with a 587-byte example;
+    table) and `C15_stream_doc` (the documented table), with a 587-byte example and a
+    522-byte example with alt + character across both boundaries;
  7. the counterexample and non-vacuity examples.
+
+The grammar `Ev` covers: runs of printable characters, keys of the table (CSI / SS3
+keys, alt variants, control characters and alt + control characters, space and
+alt+space), SGR and X10 mouse reports, bracketed pastes, unknown CSI sequences, NUL,
+and alt + ONE printable character (`ESC utf8(r)`, decoded by the tail of detectOneMsg
+with `alt = true`).  What remains EXCLUDED from the stream theorems, and why:
+ * `ESC ESC` (alt+escape): a proper prefix of every alt variant, inherently ambiguous
+   at the end of a buffer;
+ * `ESC [ 7 $` / `ESC [ 8 $` (urxvt shift+home / shift+end): the decoder's own
+   `isIncompleteEvent` takes them for unfinished CSI sequences;
+ * a lone `ESC` as an event of its own (the escape key): at the end of a completely
+   filled read it is held back, and whatever follows it is read as alt + that;
+ * alt + a character that STARTS a known sequence: `ESC [` and `ESC O` over the
+   documented table (`C15_doc_altrune_ok`: these two are the only printable ones) —
+   the bytes of the next event could complete the key (`ESC O` + `A` is the up arrow);
+   for a general table: any `ESC utf8(r)` comparable with a key (`incomparableB`);
+ * alt + U+FFFD (the decoder cannot tell it from a decoding error);
+ * alt+NUL (`ESC NUL`; not in the table, handled by the tail: not in the grammar);
+ * focus reports `ESC [ I` / `ESC [ O` (whole-buffer equality in detectReportFocus:
+   they decode differently when something follows in the same buffer);
+ * invalid bytes / invalid UTF-8 (see `C15_unanchored_regex` for what malformed input
+   can do).
+(alt+space and alt + control characters are KEYS of the table: event class `key`.)
 
 All theorems hold for EVERY key table `T` and list `lens` of positive lengths;
 hypotheses on the table are stated where needed and hold for bubbletea's table
@@ -365,6 +390,38 @@ theorem C15_paste_straddle (T : Table) (lens : List Nat) (hl : ∀ l ∈ lens, 0
   rw [paste_event_cons] at hk' hshort hheld hev ⊢
   exact C15_event_straddle T lens hl hT eof ps hp hps _ tail k _ hk hk' hcut hshort hheld hev
 
+/-- alt + a character `ESC utf8(r)` cut ANYWHERE by the buffer boundary — right after the ESC,
+or inside a multi-byte character (`k` is the number of bytes of the event in the first read,
+`0 < k < 1 + length of utf8(r)`) — after printable padding of the matching length, with any
+tail that keeps the second read short: the reader emits exactly what one-shot decoding emits —
+the padding, ONE message alt+`r` (`KeyRunes`, exactly one rune, `Alt`) consuming exactly
+`ESC utf8(r)`, then the tail.  The ESC is not delivered as an escape key, no byte of the
+character becomes an invalid-byte message, and the character is not merged into what follows.
+The cut beginning is held back: `ESC` alone because some longer key starts with ESC (`hesc`,
+`isIncompleteEvent`); `ESC` + a truncated character by the `FullRune` test of the rune loop.
+The three hypotheses on `r` are exactly `(Ev.altRune r).ok T`.  A corollary of
+`C15_event_straddle`. -/
+theorem C15_altrune_straddle (T : Table) (lens : List Nat) (hl : ∀ l ∈ lens, 0 < l) (hT : ControlKeyed T)
+    (hesc : isProperPrefixOfKey T [0x1b] = true)
+    (eof : Bool) (ps : List Nat) (hp : ∀ r ∈ ps, printable r = true) (hps : ps ≠ [])
+    (r : Nat) (hr : printable r = true) (h5 : r ≠ 0x5b)
+    (hinc : incomparableB T (0x1b :: encodeRune r) = true) (tail : Bytes) (k : Nat)
+    (hk : 0 < k) (hk' : k < (0x1b :: encodeRune r).length)
+    (hcut : (encodeRunes ps).length + k = bufSize)
+    (hshort : (0x1b :: encodeRune r).length - k + tail.length < bufSize) :
+    readAll T lens eof
+        (readsOf bufSize (encodeRunes ps ++ (0x1b :: encodeRune r) ++ tail)
+          (encodeRunes ps ++ (0x1b :: encodeRune r) ++ tail).length) [] []
+      = oneShot T lens (encodeRunes ps ++ (0x1b :: encodeRune r) ++ tail) ∧
+    ∃ o l, oneShot T lens tail = .ok (o, l) ∧
+      oneShot T lens (encodeRunes ps ++ (0x1b :: encodeRune r) ++ tail)
+        = .ok ({ msg := some (.key { type := keyRunes, runes := ps }), consumed := encodeRunes ps }
+                :: { msg := some (.key { type := keyRunes, runes := [r], alt := true }),
+                     consumed := 0x1b :: encodeRune r } :: o, l) :=
+  C15_event_straddle T lens hl hT eof ps hp hps (encodeRune r) tail k _ hk hk' hcut hshort
+    (altRune_cut_held lens hesc r hr h5 hinc k hk hk')
+    (altRune_detect lens r hr h5 hinc tail false (Or.inr rfl))
+
 /-! ## 6. streams over any number of reads -/
 
 /-- condition (c) of `CutStable` from a fact about a short read: an event that, standing alone,
@@ -424,8 +481,9 @@ table with the `TableOK` properties: a stream built from the grammar `Ev`
 (`Tea/Input/StreamSpec.lean`) — maximal runs of printable characters (multi-byte ones
 included), key sequences of the table (CSI / SS3 keys, alt variants, control characters,
 space), SGR and X10 mouse reports, bracketed pastes of ANY length (also longer than the
-buffer), CSI sequences unknown to the table, NUL — under the decidable side conditions
-`WellFormed`, is `StreamOK` and `CutStable`. -/
+buffer), CSI sequences unknown to the table, NUL, alt + one printable character (`ESC` + the
+UTF-8 encoding of the character, multi-byte ones included) — under the decidable side
+conditions `WellFormed`, is `StreamOK` and `CutStable`. -/
 theorem C15_events_cutStable (T : Table) (lens : List Nat) (hT : TableOK T lens) (evs : List Ev)
     (hwf : WellFormed T evs = true) :
     StreamOK T lens (evStream evs) ∧ CutStable T lens (evStream evs) :=
@@ -433,8 +491,8 @@ theorem C15_events_cutStable (T : Table) (lens : List Nat) (hT : TableOK T lens)
 
 /-- hence: every well-formed stream of such events, of any length, in any order, with the
 256-byte boundaries anywhere (inside a multi-byte character, a key sequence, a mouse report,
-a paste or its markers, a CSI sequence; right after an event; several boundaries inside one
-event), read in completely filled reads followed by a short read, is decoded to exactly
+a paste or its markers, a CSI sequence; between the ESC of alt + character and the character, or
+inside that character; right after an event; several boundaries inside one event), read in completely filled reads followed by a short read, is decoded to exactly
 `evs.map Ev.msg`, each message consuming exactly `Ev.bytes` of its event — and that is the
 one-shot decoding of the whole input. -/
 theorem C15_stream_events (T : Table) (lens : List Nat) (hT : TableOK T lens) (eof : Bool) (evs : List Ev)
@@ -486,6 +544,18 @@ theorem C15_doc_keys_ok : ∀ e ∈ docTable,
 /-- NUL is accepted: no key of the documented table starts with it -/
 theorem C15_doc_nul_ok : Ev.nul.ok docTable = true := by decide +kernel
 
+/-- which alt + character events the grammar accepts over the documented table: alt + EVERY
+printable character (valid scalar value above the space, not DEL, not U+FFFD) except `[` and
+`O` — `ESC [` opens CSI sequences, mouse reports, pastes and focus reports, `ESC O` the SS3
+keys: there the bytes that follow decide. -/
+theorem C15_doc_altrune_ok (r : Nat) (hr : printableScalar r = true) (h5 : r ≠ 0x5b) (hO : r ≠ 0x4f) :
+    (Ev.altRune r).ok docTable = true :=
+  docAltRune_ok r hr h5 hO
+
+/-- ... and these two really are rejected (they are proper prefixes of documented keys) -/
+example : (Ev.altRune 0x5b).ok docTable = false ∧ (Ev.altRune 0x4f).ok docTable = false := by
+  constructor <;> decide +kernel
+
 /-- THE DOCUMENTED TABLE: every well-formed stream of events over the documented key table,
 read in full-buffer chunks = one-shot decoding = `evs.map Ev.msg`. -/
 theorem C15_stream_doc (eof : Bool) (evs : List Ev) (hwf : WellFormed docTable evs = true) :
@@ -495,7 +565,8 @@ theorem C15_stream_doc (eof : Bool) (evs : List Ev) (hwf : WellFormed docTable e
     readAll docTable docLens eof (readsOf bufSize s s.length) [] [] = oneShot docTable docLens s :=
   C15_stream_events docTable docLens C15_doc_tableOK eof evs hwf
 
-/-- a concrete stream of 587 bytes (three reads: 256, 256, 75) with every event kind:
+/-- a concrete stream of 587 bytes (three reads: 256, 256, 75) with every event kind but alt +
+character (that is `demoAltStream` below):
 text with 2-, 3- and 4-byte characters, up arrow, an SGR report, an X10 report, an unknown CSI
 sequence, enter, NUL, text, an SGR report that straddles the first boundary (bytes 254–265), a paste
 of 300 bytes (longer than the buffer) that straddles the second boundary (bytes 266–577),
@@ -529,6 +600,52 @@ example : readAll docTable docLens true
       (readsOf bufSize (demoStream.map Ev.bytes).flatten (demoStream.map Ev.bytes).flatten.length) [] []
     = .ok (demoStream.map (fun e => { msg := some e.msg, consumed := e.bytes }), []) :=
   (C15_stream_doc true demoStream C15_demo_wellFormed.1).1
+
+/-- a second concrete stream, 522 bytes (three reads: 256, 256, 10), with alt + character across
+both boundaries: 255 letters; alt+`é` (`ESC C3 A9`, bytes 255–257: the first boundary falls
+BETWEEN the ESC and the character); text right after it (alt takes exactly one character); up
+arrow; alt+`x`; an SGR report; text; alt+`😀` (`ESC F0 9F 98 80`, bytes 509–513: the second
+boundary falls INSIDE the character, after `F0 9F`) right after a run (the ESC stops the run);
+alt+`世` right after it; enter; text -/
+def demoAltStream : List Ev :=
+  [ .run (List.replicate 255 0x61),
+    .altRune 0xe9,
+    .run (List.replicate 100 0x62),
+    .key { seq := [27, 91, 65], key := { type := -2 } },
+    .altRune 0x78,
+    .sgr 0 10 5 77,
+    .run (List.replicate 136 0x63),
+    .altRune 0x1f600,
+    .altRune 0x4e16,
+    .key { seq := [13], key := { type := 13 } },
+    .run [0x65, 0x6e, 0x64] ]
+
+/-- the side conditions hold (decidable), the stream is longer than two buffers, the ESC of
+alt+`é` is byte 255 (the last of the first read), and alt+`😀` is bytes 509–513 (so the second
+read ends after `ESC F0 9F`) -/
+theorem C15_demoAlt_wellFormed : WellFormed docTable demoAltStream = true ∧
+    ((demoAltStream.map Ev.bytes).flatten).length = 522 ∧
+    (((demoAltStream.take 1).map Ev.bytes).flatten).length = 255 ∧
+    (((demoAltStream.take 2).map Ev.bytes).flatten).length = 258 ∧
+    (((demoAltStream.take 7).map Ev.bytes).flatten).length = 509 ∧
+    (((demoAltStream.take 8).map Ev.bytes).flatten).length = 514 ∧
+    ((demoAltStream.map Ev.bytes).flatten).take 256 = List.replicate 255 0x61 ++ [0x1b] ∧
+    (((demoAltStream.map Ev.bytes).flatten).take 512).drop 509 = [0x1b, 0xf0, 0x9f] := by
+  refine ⟨by decide +kernel, by decide +kernel, by decide +kernel, by decide +kernel, by decide +kernel,
+    by decide +kernel, by decide +kernel, by decide +kernel⟩
+
+/-- non-vacuity of `C15_stream_doc` for alt + character: the second demo stream, read as
+256 + 256 + 10 bytes, gives exactly its eleven messages (through the theorem) -/
+example : readAll docTable docLens true
+      (readsOf bufSize (demoAltStream.map Ev.bytes).flatten (demoAltStream.map Ev.bytes).flatten.length) [] []
+    = .ok (demoAltStream.map (fun e => { msg := some e.msg, consumed := e.bytes }), []) :=
+  (C15_stream_doc true demoAltStream C15_demoAlt_wellFormed.1).1
+
+/-- ... whose second and eighth messages are alt+`é` and alt+`😀`, each ONE KeyRunes message with
+one rune and `Alt` -/
+example : (demoAltStream.map Ev.msg)[1]? = some (.key { type := keyRunes, runes := [0xe9], alt := true }) ∧
+    (demoAltStream.map Ev.msg)[7]? = some (.key { type := keyRunes, runes := [0x1f600], alt := true }) := by
+  decide
 
 /-! ## 7. why the unconditional statement is false of the model; non-vacuity -/
 
@@ -596,5 +713,42 @@ example :
   (C15_mouse_straddle T0 [3] (by decide) (controlKeyed_of_B (by decide)) (by decide) true
     (List.replicate 250 0x61) (by intro c hc; rw [List.eq_of_mem_replicate hc]; decide) (by decide +kernel)
     0 10 5 77 (Or.inl rfl) [0x62] 6 (by decide) (by decide +kernel) (by decide +kernel) (by decide +kernel)).1
+
+/-- non-vacuity of `C15_altrune_straddle`, cut BETWEEN the ESC and the character: 255 letters,
+`ESC` | `C3 A9` (alt+`é`), then a letter -/
+example :
+    readAll T0 [3] true
+      (readsOf bufSize (encodeRunes (List.replicate 255 0x61) ++ (0x1b :: encodeRune 0xe9) ++ [0x62])
+        (encodeRunes (List.replicate 255 0x61) ++ (0x1b :: encodeRune 0xe9) ++ [0x62]).length) [] []
+      = oneShot T0 [3] (encodeRunes (List.replicate 255 0x61) ++ (0x1b :: encodeRune 0xe9) ++ [0x62]) :=
+  (C15_altrune_straddle T0 [3] (by decide) (controlKeyed_of_B (by decide)) (by decide) true
+    (List.replicate 255 0x61) (by intro c hc; rw [List.eq_of_mem_replicate hc]; decide) (by decide +kernel)
+    0xe9 (by decide) (by decide) (by decide) [0x62] 1 (by decide) (by decide) (by decide +kernel)
+    (by decide +kernel)).1
+
+/-- ... and cut INSIDE the character: 253 letters, `ESC F0 9F` | `98 80` (alt+`😀`), then a letter -/
+example :
+    readAll T0 [3] true
+      (readsOf bufSize (encodeRunes (List.replicate 253 0x61) ++ (0x1b :: encodeRune 0x1f600) ++ [0x62])
+        (encodeRunes (List.replicate 253 0x61) ++ (0x1b :: encodeRune 0x1f600) ++ [0x62]).length) [] []
+      = oneShot T0 [3] (encodeRunes (List.replicate 253 0x61) ++ (0x1b :: encodeRune 0x1f600) ++ [0x62]) :=
+  (C15_altrune_straddle T0 [3] (by decide) (controlKeyed_of_B (by decide)) (by decide) true
+    (List.replicate 253 0x61) (by intro c hc; rw [List.eq_of_mem_replicate hc]; decide) (by decide +kernel)
+    0x1f600 (by decide) (by decide) (by decide) [0x62] 3 (by decide) (by decide) (by decide +kernel)
+    (by decide +kernel)).1
+
+/-- the held-back beginnings, directly on the model: `ESC` alone, `ESC C3`, `ESC F0 9F 98` at the
+end of a completely filled read are held back; `ESC C3 A9` alone there is held back whole, and
+followed by one more byte it is alt+`é` of width 3 -/
+example :
+    (detectOneMsg T0 [3] [0x1b] true).toOption = some (0, none) ∧
+    (detectOneMsg T0 [3] [0x1b, 0xc3] true).toOption = some (0, none) ∧
+    (detectOneMsg T0 [3] [0x1b, 0xf0, 0x9f, 0x98] true).toOption = some (0, none) ∧
+    (detectOneMsg T0 [3] [0x1b, 0xc3, 0xa9] true).toOption = some (0, none) ∧
+    (detectOneMsg T0 [3] [0x1b, 0xc3, 0xa9, 0x62] true).toOption
+      = some (3, some (.key { type := keyRunes, runes := [0xe9], alt := true })) ∧
+    (detectOneMsg T0 [3] [0x1b, 0xc3, 0xa9] false).toOption
+      = some (3, some (.key { type := keyRunes, runes := [0xe9], alt := true })) := by
+  decide
 
 end Tea.Props.C15
